@@ -8,6 +8,7 @@ import (
 	"sort"
 	"strings"
 
+	controllerrest "github.com/openebs/jiva/controller/rest"
 	"github.com/openebs/jiva/replica"
 	replicarest "github.com/openebs/jiva/replica/rest"
 	"github.com/openebs/jiva/types"
@@ -251,3 +252,183 @@ func c14Configs(tier string) []C14Cfg {
 }
 
 func checkC14conc() int { return checkSimple("C14", "C14conc", "C14-conc.part") }
+
+// ---------------------------------------------------------------------------------------------------------------
+// controller side: overlapping requests on the real controller/rest router
+
+// C14CtlCfg: a real controller.Controller (package controller and package controller/rest under the scheduler) brought to
+// an initial membership by c18Build, behind the real controller/rest router; two or three requests whose handlers run
+// concurrently.  Oracle: every handler returns, none panics, afterwards the controller lock is free, GET /v1/volumes
+// and GET /v1/replicas are answered 200 and C18's membership invariants hold.
+type C14CtlCfg struct {
+	Name string   `json:"name"`
+	Init string   `json:"init"` // rw3 | rw2wo | rw2
+	Reqs []string `json:"reqs"`
+}
+
+func (c C14CtlCfg) String() string {
+	return fmt.Sprintf("%s init=%s requests=%s", c.Name, c.Init, strings.Join(c.Reqs, "||"))
+}
+
+func c14CtlRequest(name string) (method, path, body string) {
+	vol := "/v1/volumes/" + controllerrest.EncodeID("vol")
+	rep := func(i int) string { return "/v1/replicas/" + controllerrest.EncodeID(c18addr(i)) }
+	idx := func() int { var i int; fmt.Sscanf(name[len(name)-1:], "%d", &i); return i }
+	switch {
+	case name == "vols":
+		return "GET", "/v1/volumes", ""
+	case name == "vol":
+		return "GET", vol, ""
+	case name == "stats":
+		return "GET", "/v1/stats", ""
+	case name == "cp":
+		return "GET", "/v1/checkpoint", ""
+	case name == "reps":
+		return "GET", "/v1/replicas", ""
+	case strings.HasPrefix(name, "rep"):
+		return "GET", rep(idx()), ""
+	case name == "snap":
+		return "POST", vol + "?action=snapshot", `{"name":"x1"}`
+	case name == "snapbad":
+		return "POST", vol + "?action=snapshot", `{"name":`
+	case name == "revert":
+		return "POST", vol + "?action=revert", `{"name":"nosuch"}`
+	case name == "resize":
+		return "POST", vol + "?action=resize", `{"name":"vol","size":"32768"}`
+	case name == "delsnap":
+		return "DELETE", vol + "?action=deleteSnapshot", `{"name":"nosuch"}`
+	case name == "delsnapbad":
+		return "DELETE", vol + "?action=deleteSnapshot", `{"name":`
+	case strings.HasPrefix(name, "add"):
+		return "POST", "/v1/replicas", fmt.Sprintf(`{"address":%q}`, c18addr(idx()))
+	case strings.HasPrefix(name, "del"):
+		return "DELETE", rep(idx()), ""
+	case strings.HasPrefix(name, "err"):
+		return "PUT", rep(idx()), `{"mode":"ERR"}`
+	case strings.HasPrefix(name, "ver"):
+		return "POST", rep(idx()) + "?action=verifyrebuild", ""
+	case strings.HasPrefix(name, "prep"):
+		return "POST", rep(idx()) + "?action=preparerebuild", ""
+	case strings.HasPrefix(name, "reg"):
+		return "POST", "/v1/register", fmt.Sprintf(`{"Address":%q,"UUID":"uuid-r","RevCount":"1","RepType":"Backend","RepState":"closed","UpTime":1000}`, c18ip(idx()))
+	}
+	return "", "", ""
+}
+
+func c14CtlRun(cfg *C14CtlCfg, ch vs.Chooser, trace bool) (*Outcome, *vs.Result) {
+	out := &Outcome{}
+	tag := cfg.Init + ":" + strings.Join(cfg.Reqs, "||")
+	viol := func(oracle, f string, a ...interface{}) {
+		out.Violations = append(out.Violations, Viol{Oracle: oracle, Sig: oracle + ":" + tag, Detail: fmt.Sprintf(f, a...)})
+	}
+	type reqRun struct {
+		name   string
+		status int
+		done   bool
+	}
+	res := vs.Run(vs.Config{Chooser: ch, Horizon: 30000, Trace: trace}, func() {
+		vs.NoChoice(true)
+		cl, err := c18Build(cfg.Init)
+		if err != nil {
+			vs.Fatal("cannot build the initial cluster: " + err.Error())
+		}
+		vs.Quiesce(0)
+		router := controllerrest.NewRouter(controllerrest.NewServer(cl.c))
+		serve := func(name string) int {
+			method, path, body := c14CtlRequest(name)
+			var req *http.Request
+			if body != "" {
+				req = httptest.NewRequest(method, "http://10.0.0.100:9501"+path, strings.NewReader(body))
+				req.Header.Set("Content-Type", "application/json")
+			} else {
+				req = httptest.NewRequest(method, "http://10.0.0.100:9501"+path, nil)
+			}
+			rec := httptest.NewRecorder()
+			router.ServeHTTP(rec, req)
+			return rec.Code
+		}
+		runs := make([]*reqRun, len(cfg.Reqs))
+		for k, n := range cfg.Reqs {
+			runs[k] = &reqRun{name: fmt.Sprintf("%d:%s", k, n)}
+		}
+		vs.NoChoice(false)
+		for k, n := range cfg.Reqs {
+			k, n := k, n
+			vs.Go("req"+runs[k].name, func() { runs[k].status = serve(n); runs[k].done = true })
+		}
+		vs.Quiesce(0)
+		vs.NoChoice(true)
+		var obs []string
+		stuck := false
+		for _, r := range runs {
+			if !r.done {
+				stuck = true
+				obs = append(obs, r.name+"=NEVER-RETURNED")
+				continue
+			}
+			obs = append(obs, fmt.Sprintf("%s=%dxx", r.name, r.status/100))
+		}
+		out.Obs = strings.Join(obs, " ")
+		if stuck {
+			var bl []string
+			for _, t := range vs.Threads() {
+				if !t.Done && t.Kind != "" && !strings.Contains(t.Name, "stub") && t.Name != "main" {
+					bl = append(bl, fmt.Sprintf("%s blocked in %s at %s", t.Name, t.Kind, t.Loc))
+				}
+			}
+			viol("handler-never-returns", "%s: %v", out.Obs, bl)
+			return
+		}
+		if !cl.c.VerifTryLock() {
+			viol("lock-left-held", "the controller lock is still held after %s", out.Obs)
+			return
+		}
+		for _, p := range []string{"vols", "reps"} {
+			p := p
+			done, code := false, 0
+			vs.Go("probe-"+p, func() { code = serve(p); done = true })
+			vs.Quiesce(0)
+			if !done || code != 200 {
+				viol("probe-not-served", "probe %s after %s: returned=%v status=%d", p, out.Obs, done, code)
+				return
+			}
+		}
+		if iv := cl.invariants(); len(iv) > 0 {
+			viol("membership-invariant", "after %s: %s", out.Obs, strings.Join(iv, "; "))
+		}
+		v := cl.c.VerifView()
+		var reps []string
+		for _, r := range v.Replicas {
+			reps = append(reps, r.Address[len("tcp://10.0.0."):len("tcp://10.0.0.")+1]+":"+string(r.Mode))
+		}
+		sort.Strings(reps)
+		sort.Strings(obs)
+		out.Obs = fmt.Sprintf("%s | ro=%v rw=%d replicas=%v", strings.Join(obs, " "), v.ReadOnly, v.RWReplicaCount, reps)
+	})
+	return out, res
+}
+
+func c14CtlConfigs(tier string) []C14CtlCfg {
+	var out []C14CtlCfg
+	pairs := func(init string, menu []string) {
+		for i := 0; i < len(menu); i++ {
+			for j := i + 1; j < len(menu); j++ {
+				out = append(out, C14CtlCfg{Name: "ctl-overlap", Init: init, Reqs: []string{menu[i], menu[j]}})
+			}
+		}
+	}
+	pairs("rw3", []string{"vols", "reps", "rep1", "stats", "cp", "snap", "delsnap", "delsnapbad", "del1", "err1", "revert", "resize"})
+	pairs("rw2wo", []string{"reps", "ver2", "prep2", "del2", "err0", "snap"})
+	pairs("rw2", []string{"vols", "add2", "add3", "del1", "reg3", "snapbad"})
+	for _, same := range []string{"snap", "del1", "err1", "delsnap"} {
+		out = append(out, C14CtlCfg{Name: "ctl-overlap", Init: "rw3", Reqs: []string{same, same}})
+	}
+	if tier == "thorough" {
+		for _, t := range [][]string{{"vols", "del1", "err2"}, {"stats", "snap", "del1"}, {"reps", "delsnapbad", "snap"}} {
+			out = append(out, C14CtlCfg{Name: "ctl-overlap", Init: "rw3", Reqs: t})
+		}
+	}
+	return out
+}
+
+func checkC14ctl() int { return checkSimple("C14", "C14ctl", "C14-ctl.part") }
